@@ -162,7 +162,7 @@ func cmdCheck(args []string) {
 			os.Exit(2)
 		}
 		eng.timeoutS = timeout
-		if err := eng.LoadContracts(ContractFiles(*repo, filepath.Join(*vdir, "spec"))); err != nil {
+		if err := eng.LoadContracts(ContractFilesArch(*repo, g.Arch, filepath.Join(*vdir, "spec"))); err != nil {
 			fmt.Println("ERROR: contracts:", err)
 			os.Exit(2)
 		}
@@ -331,6 +331,7 @@ func cmdCheck(args []string) {
 	}
 	// extra deciding commands (e.g. the assembly verifier)
 	var extras []map[string]interface{}
+	var extraFuncs, extraTrusted []string
 	for _, c := range pc.Extra {
 		c = strings.ReplaceAll(c, "{repo}", *repo)
 		cmd := osexec.Command("sh", "-c", c)
@@ -347,6 +348,30 @@ func cmdCheck(args []string) {
 				lines = append(lines, l)
 			} else if strings.HasPrefix(l, "KNOWN-FINDING:") || strings.HasPrefix(l, "EXTRA:") {
 				lines = append(lines, l)
+			} else if strings.HasPrefix(l, "EXTRA-JSON: ") {
+				var sum struct {
+					Tool        string                   `json:"tool"`
+					Obligations int                      `json:"obligations"`
+					Discharged  int                      `json:"discharged"`
+					Functions   []string                 `json:"functions"`
+					Backend     string                   `json:"backend"`
+					Seconds     float64                  `json:"solver_seconds"`
+					Samples     []map[string]interface{} `json:"samples"`
+					Assumptions []string                 `json:"assumptions"`
+				}
+				if json.Unmarshal([]byte(l[len("EXTRA-JSON: "):]), &sum) == nil {
+					total += sum.Obligations
+					discharged += sum.Discharged
+					solverCount[sum.Backend] += sum.Discharged
+					solverTime[sum.Backend] += sum.Seconds
+					extraFuncs = append(extraFuncs, sum.Functions...)
+					extraTrusted = append(extraTrusted, sum.Assumptions...)
+					for _, sm := range sum.Samples {
+						o, _ := sm["obligation"].(string)
+						samples = append(samples, map[string]string{"obligation": sum.Tool + ":" + o, "solver": sum.Backend})
+					}
+					extras[len(extras)-1]["summary"] = json.RawMessage(l[len("EXTRA-JSON: "):])
+				}
 			}
 		}
 		if err != nil && !strings.Contains(out.String(), "VIOLATION ") {
@@ -402,7 +427,9 @@ func cmdCheck(args []string) {
 		}
 		sort.Strings(inlined)
 		sort.Strings(assumed)
+		funcs = append(funcs, extraFuncs...)
 		trusted := append([]string{}, pc.Trusted...)
+		trusted = append(trusted, extraTrusted...)
 		for _, a := range assumed {
 			trusted = append(trusted, "assumed contract (not verified): "+a)
 		}
